@@ -64,6 +64,10 @@ static uint8_t *mem_addr (ri_ctx *ri, frame *fr, const MIR_op_t *op) {
   const MIR_mem_t *m = &op->u.mem; uint64_t a = (uint64_t) m->disp;
   if (m->base != 0) { if (fr->regs[m->base].taint) { stop (ri, RI_UNSPEC, "address from a value with undefined upper half"); return NULL; } a += fr->regs[m->base].u.u; }
   if (m->index != 0) { if (fr->regs[m->index].taint) { stop (ri, RI_UNSPEC, "address from a value with undefined upper half"); return NULL; } a += fr->regs[m->index].u.u * (uint64_t) m->scale; }
+  { unsigned al = 1;
+    switch (m->type) { case MIR_T_I16: case MIR_T_U16: al = 2; break; case MIR_T_I32: case MIR_T_U32: case MIR_T_F: al = 4; break;
+    case MIR_T_I64: case MIR_T_U64: case MIR_T_P: case MIR_T_D: al = 8; break; case MIR_T_LD: al = 16; break; default: break; }
+    if (a % al != 0) ri->misaligned++; }
   return (uint8_t *) (uintptr_t) a;
 }
 static int check_read (ri_ctx *ri, const uint8_t *p, size_t n) {
